@@ -115,6 +115,45 @@ def explore(ck, name, cfg, rounds, per_round, label):
                       mism[0][0], mism[0][1], coq_in[mism[0][0]][1], coq_in[mism[0][0]][0][-300:]))
 
 
+def sw_battery(ck, name, cfg):
+    """every verb of every service and application of one host, each applied twice in a row and again after a tick, so that
+    the handlers are reached in all their internal states (fixing, restarting, installing, overwhelmed ...): every request is
+    answered with exactly one of the four statuses and never raises."""
+    rng = ck.rng
+    game = world.make_game(cfg)
+    game.setup_for_episode(0)
+    sim = game.simulation
+    hosts = [n for n in sim.network.nodes.values() if n.operating_state.name == "ON"]
+    if not hosts:
+        return
+    node = rng.choice(hosts)
+    h = node.config.hostname
+    from primaite.interface.request import RequestResponse
+    for sname, sw in list(node.software_manager.software.items()):
+        kind = "service" if type(sw).__mro__ and any(c.__name__ == "Service" for c in type(sw).__mro__) else "application"
+        verbs = ["scan", "fix", "fix", "stop", "start", "pause", "resume", "restart", "fix", "disable", "enable", "start", "fix", "fix"] if kind == "service" \
+            else ["scan", "fix", "fix", "close", "execute", "fix", "fix", "scan"]
+        for k, v in enumerate(verbs):
+            r = ["network", "node", h, kind, sname, v]
+            try:
+                resp = sim.apply_request(r)
+            except Exception as e:
+                ck.violation("request-raises:%s:%s" % (v, type(e).__name__), "request %s raised %r" % (r, e), {"scenario": name, "request": r, "verbs_before": verbs[:k]})
+                break
+            ck.evaluations += 1
+            ck.case(canon=(name, "sw", sname, k, v), nontrivial=k > 0 and verbs[k - 1] == v)
+            if not isinstance(resp, RequestResponse) or resp.status not in ("success", "failure", "unreachable", "pending"):
+                ck.violation("answer-not-one-of-the-four-statuses:%s" % v, "request %s (after %s on the same %s) was answered %r, which is not a response with one of the four statuses"
+                             % (r, verbs[:k], kind, resp), {"scenario": name, "request": r, "verbs_before": verbs[:k], "health": sw.health_state_actual.name})
+                break
+            if k % 5 == 4:
+                try:
+                    game.pre_timestep(); sim.apply_timestep(game.step_counter); game.step_counter += 1
+                except Exception as e:
+                    ck.violation("tick-raises:%s" % type(e).__name__, "a tick after %s raised %r" % (r, e), {"scenario": name, "request": r})
+                    return
+
+
 def fs_battery(ck, name, cfg):
     """the clauses a path analysis cannot see, because folder and file names are HANDLER ARGUMENTS of the file-system level
     requests: (1) a request naming a deleted / never-existing folder or file is not answered 'success' and changes nothing;
@@ -215,6 +254,7 @@ def run(ck):
     for i, (name, cfg) in enumerate(scenarios(ck)):
         explore(ck, name, cfg, rounds=ck.n(5, 12), per_round=ck.n(70, 150), label=str(i))
         fs_battery(ck, name, cfg)
+        sw_battery(ck, name, cfg)
 
 
 def replay(ck, path):
